@@ -204,6 +204,15 @@ class World:
         os.chmod(p, 0o644)
         with open(p, "rb") as fh:
             data = fh.read()
+        if x in self.uni.dirs:
+            # a directory object: trailing white space - it still parses to the same listing
+            mode = {"rename600": 0o600, "append664": 0o664}.get(pat)
+            with open(p, "r+b") as fh:
+                fh.write(data + b"\n" * (1 + data.count(b"\n")))
+            os.utime(p, ns=(st.st_mtime_ns + 7_000_000_000, st.st_mtime_ns + 7_000_000_000))
+            if mode is not None:
+                os.chmod(p, mode)
+            return
         mode = {"rename600": 0o600, "append664": 0o664}.get(pat)
         pat = {"rename600": "rename", "append664": "append"}.get(pat, pat)
         if not data and pat in ("truncate", "same_len", "rename"):
